@@ -8,8 +8,8 @@ CONSTANTS
  Thin = TRUE
  Stateful = FALSE
  Forms = {"plain", "access-suffix"}
- PrefixMatch = FALSE
- Emit = TRUE
+ PrefixMatch = TRUE
+ Emit = FALSE
 SPECIFICATION Spec
 INVARIANT OnlyDocumented
 INVARIANT GitWins
